@@ -407,7 +407,7 @@ func vC08Step(maxPre int, steps int) {
 func VerifC08_StepQuick()    { vC08Step(2, 1) }
 func VerifC08_StepThorough() { vC08Step(3, 1) }
 func VerifC08_SeqQuick()     { vC08Step(0, 2) }
-func VerifC08_SeqThorough()  { vC08Step(1, 3) }
+func VerifC08_SeqThorough()  { vC08Step(1, 2) }
 
 // long sequences over the small alphabet: pre-state of 0..1 bound fids (fid 0,
 // directory or file, unopened or open), then `steps` operations
